@@ -103,6 +103,11 @@ VECTOR_FORMS = [
     ("uint64 array", lambda a: np.array(a).astype(np.uint64)),
     ("read-only float array", _readonly),
     ("non-contiguous view", lambda a: np.repeat(np.array(a, float), 2)[::2]),
+    # shape AND memory layout: the logical element order of these differs from their order in memory
+    ("2-D Fortran-ordered array", lambda a: np.asfortranarray(np.array(a, float).reshape(2, -1))),
+    ("transposed 2-D view", lambda a: np.array(a, float).reshape(-1, 2).T),
+    ("2-D block of a two-column DataFrame (.to_numpy())", lambda a: __import__("pandas").DataFrame({"a": list(a)[: len(a) // 2], "b": list(a)[len(a) // 2:]}, dtype=float).to_numpy()),
+    ("broadcast 2-D view (stride 0)", lambda a: np.broadcast_to(np.array(a, float), (2, len(a)))),
 ]
 
 
@@ -110,7 +115,8 @@ def check_vector_forms(f, ps_int, report, label, inp, forms=None, skip=()):
     """f: pressures -> values.  ps_int: an even number (>= 4) of integer-valued pressures.  Compares f on each container form with the
     element-by-element scalar calls f(float(p)); also requires the input's shape and an unmodified input.  Returns #evaluations."""
     ps_int = [float(int(q)) for q in ps_int]
-    want = np.array([float(np.ravel(np.asarray(f(q), float))[0]) for q in ps_int])
+    want0 = np.array([float(np.ravel(np.asarray(f(q), float))[0]) for q in ps_int])
+    want = want0
     n = 0
     for name, mk in (forms or VECTOR_FORMS):
         if any(sk in name for sk in skip):
@@ -118,6 +124,9 @@ def check_vector_forms(f, ps_int, report, label, inp, forms=None, skip=()):
         n += 1
         arg = mk(ps_int)
         before = np.array(arg, float).copy()
+        # expected values in the LOGICAL element order of this form (a transposed view lists the pressures in another order)
+        lookup = dict(zip(ps_int, want0))
+        want = np.array([lookup[float(v)] for v in before.ravel()])
         try:
             got = np.asarray(f(arg), float)
         except Exception as e:  # noqa: BLE001
